@@ -217,9 +217,9 @@ PROPS["C16"] = dict(
 PROPS["C04"] = dict(
     harness="decode",
     level="exploration",
-    technique="property-based testing of hierarchy invariants on generated decodes: alignment words vs first-pass segmentation, phones vs dictionary, states vs model, contiguity and partition at every level, parent = sum of children, cache identity / no stale object after failure",
-    level_text="decoder_alignment is requested at partial points and at the end of generated decodes (alignment text, JSGF and FSG grammars; speech, noise and degenerate audio; streaming, buffered and full_utt input): the words must be exactly the dictionary words of the first-pass segmentation with the same start frames and durations, phones the dictionary pronunciation, states the model's emitting states; every level contiguous from frame 0 with positive durations, children partitioning their parent; parent score equal to the sum of its children; same object when asked twice, and NULL stays NULL.",
-    level_note="Trusted: the iterators of alignment.h as observation interface, dictionary accessors for the expected pronunciation. The independent within-word rescoring and the cross-pass score clause are decided by the viterbi harness (C02/C04 share the captured senone scores there).",
+    technique="property-based testing of hierarchy invariants on generated decodes: alignment words vs first-pass segmentation, phones vs dictionary, states vs model, contiguity and partition at every level, parent = sum of children, repeatability / no stale object after failure, senone sequences vs the model definition, and a cross-pass score relation (second pass >= first pass within the same word boundaries, equal with pruning disabled)",
+    level_text="decoder_alignment is requested at partial points and at the end of generated decodes (alignment text, JSGF and FSG grammars; speech, noise and degenerate audio; streaming, buffered and full_utt input): the words must be exactly the dictionary words of the first-pass segmentation with the same start frames and durations, phones the dictionary pronunciation, states the model's emitting states; every level contiguous from frame 0 with positive durations, children partitioning their parent; parent score equal to the sum of its children; the same content when asked twice, and NULL stays NULL; the senone ids under each phone are the emitting states, in order, of a model of that phone (exactly the neighbour-selected triphone for word-internal phones); on the compallsen decoder each multi-phone word that is followed by another word scores at least the acoustic part the search gave it (segment ascr minus the configured insertion penalties), and exactly that with beams disabled.",
+    level_note="Trusted: the iterators of alignment.h as observation interface, dictionary accessors for the expected pronunciation. The cross-pass clause is not judged for the last word of a result, for one-phone words, or without compallsen: there the two passes use different models or normalisation by design (DESIGN 9.2). No independent within-word DP is built.",
     quick=dict(cases=200, maxlen=600, budget=100),
     thorough=dict(cases=5000, maxlen=600, budget=1200),
     rule=_DECODE_RULE + "Non-trivial = an alignment with >= 2 real words; distinct = distinct case text.",
